@@ -619,10 +619,14 @@ func analyseQuery(doc *gast.QueryDocument) queryFeatures {
 				if underRef && x.Name != "kind" && x.Name != "name" && x.Name != "ofType" && x.Name != "__typename" {
 					qf.deepRef = true
 				}
-				if seen[x.Name] && len(x.SelectionSet) > 0 {
+				rk := x.Alias
+				if rk == "" {
+					rk = x.Name
+				}
+				if seen[rk] && len(x.SelectionSet) > 0 {
 					qf.mergedDuplicate = true
 				}
-				seen[x.Name] = true
+				seen[rk] = true
 				if a := x.Arguments.ForName("includeDeprecated"); a != nil {
 					qf.anyIncludeDeprecated = true
 					switch a.Value.Kind {
